@@ -144,12 +144,12 @@ def spec_tag(h, msg, ipad, opad, taglen, want_state=False):
 _img_cache = {}
 
 
-def reset_image(ctx, h, lanes):
-    """bytes of the manager below the road block after the REAL reset routine ran on zeroed memory (native run)"""
+def reset_image(ctx, h, lanes, H=None):
+    """bytes of the manager below the road block after the REAL reset routine ran on 0xA5-filled memory (native run)"""
     key = (h, lanes)
     if key in _img_cache:
         return _img_cache[key]
-    H = HASHES[h]
+    H = H or HASHES[h]
     src = os.path.join(ctx.scratch, 'reset_%s_%d.c' % (h, lanes))
     with open(src, 'w') as f:
         f.write('#include <stdio.h>\n#include <stdlib.h>\n#include <string.h>\n#include <stddef.h>\n#include "intel-ipsec-mb.h"\n#include "include/ipsec_ooo_mgr.h"\n'
